@@ -95,12 +95,31 @@ theorem loop_pieces_tail (tail : List Char) (ht : StopTail tail) :
     | redir fd op w =>
       obtain ⟨h1, h2⟩ := hp
       exact loop_redir fd h1 op w _ h2 hn sp b k
+    | arrayAssign n ws =>
+      obtain ⟨h0, h1, h2, h3, h4⟩ := hp
+      exact loop_arrayAssign n ws _ h1 sp b k h0 h2 h3 h4
 
 /-- simple commands of the proved fragment, given the text that follows -/
 def SimpleOk (c : SimpleCommand) (tail : List Char) : Prop :=
-  ∃ as ws rs, c = mkSimple as ws rs ∧
-    ((mkSimple as ws rs).assigns ≠ [] ∨ ws ≠ [] ∨ (mkSimple as ws rs).redirs ≠ []) ∧
-    PiecesOk ⟨[], [], []⟩ (simplePieces as ws rs) tail
+  ∃ ps : List Piece, ps ≠ [] ∧ printSimple c = printPieces ps ∧
+    ps.foldl Builder.push ⟨[], [], []⟩ = ⟨c.assigns, c.words, c.redirs⟩ ∧ PiecesOk ⟨[], [], []⟩ ps tail
+
+/-- the commands `mkSimple as ws rs` (scalar assignments, words, normal redirections; wave 1/2 form) -/
+theorem simpleOk_of_mk (as : List (List Char × Word)) (ws : List Word) (rs : List (Option Nat × RedirOp × Word))
+    (tail : List Char)
+    (hne : (mkSimple as ws rs).assigns ≠ [] ∨ ws ≠ [] ∨ (mkSimple as ws rs).redirs ≠ [])
+    (hok : PiecesOk ⟨[], [], []⟩ (simplePieces as ws rs) tail) : SimpleOk (mkSimple as ws rs) tail := by
+  have hps : simplePieces as ws rs ≠ [] := by
+    intro e
+    have := foldl_simplePieces as ws rs
+    rw [e] at this
+    simp at this
+    obtain ⟨a1, a2, a3⟩ := this
+    rcases hne with h | h | h
+    · exact h a1
+    · exact h (by simpa [mkSimple] using a2)
+    · exact h a3
+  exact ⟨simplePieces as ws rs, hps, printSimple_pieces as ws rs, foldl_simplePieces as ws rs, hok⟩
 
 theorem piece_print_ne (b : Builder) (p : Piece) (next : List Char) (h : PieceOk b p next) :
     1 ≤ p.print.length := by
@@ -118,6 +137,9 @@ theorem piece_print_ne (b : Builder) (p : Piece) (next : List Char) (h : PieceOk
   | redir fd op w =>
     obtain ⟨c, tl, e, _⟩ := redirOp_str_head op
     simp [Piece.print, printRedir, e]
+    omega
+  | arrayAssign n ws =>
+    simp [Piece.print, printArrayAssign]
     omega
 
 theorem pieces_length_le (tail : List Char) : ∀ (ps : List Piece) (b : Builder), PiecesOk b ps tail →
@@ -141,39 +163,33 @@ theorem parseSimple_stop (c : SimpleCommand) (tail : List Char) (ht : StopTail t
     ∀ fuel, (printSimple c).length + 2 ≤ fuel →
       parseSimple fuel ((if sp then [' '] else []) ++ (printSimple c ++ tail)) = some (some c, tail) := by
   intro fuel hf
-  obtain ⟨as, ws, rs, rfl, hne, hok⟩ := h
+  obtain ⟨ps, hps, hprint, hfold, hok⟩ := h
   have hlen := pieces_length_le tail _ _ hok
-  rw [printSimple_pieces] at hf ⊢
-  have hps : simplePieces as ws rs ≠ [] := by
-    intro e
-    have := foldl_simplePieces as ws rs
-    rw [e] at this
-    simp at this
-    obtain ⟨a1, a2, a3⟩ := this
-    rcases hne with h | h | h
-    · exact h a1
-    · exact h (by simpa [mkSimple] using a2)
-    · exact h a3
-  have hl := loop_pieces_tail tail ht (simplePieces as ws rs) ⟨[], [], []⟩ fuel sp (by omega)
-    (fun e => absurd e hps) hok
+  rw [hprint] at hf ⊢
+  have hl := loop_pieces_tail tail ht ps ⟨[], [], []⟩ fuel sp (by omega) (fun e => absurd e hps) hok
   unfold parseSimple
-  rw [hl, foldl_simplePieces]
-  have : (Builder.mk (mkSimple as ws rs).assigns (mkSimple as ws rs).words
-      (mkSimple as ws rs).redirs).isEmpty = false := by
-    simp only [Builder.isEmpty]
-    rcases hne with h | h | h
-    · cases hh : (mkSimple as ws rs).assigns with
-      | nil => exact absurd hh h
-      | cons _ _ => simp
-    · have : (mkSimple as ws rs).words = ws := rfl
-      rw [this]
-      cases ws with
-      | nil => exact absurd rfl h
-      | cons _ _ => simp
-    · cases hh : (mkSimple as ws rs).redirs with
-      | nil => exact absurd hh h
-      | cons _ _ => simp
-  simp [this]
+  rw [hl, hfold]
+  have hne : (Builder.mk c.assigns c.words c.redirs).isEmpty = false := by
+    -- a non-empty list of pieces builds a non-empty command
+    cases ps with
+    | nil => exact absurd rfl hps
+    | cons p qs =>
+      have hmono : ∀ (l : List Piece) (b : Builder), b.isEmpty = false →
+          (l.foldl Builder.push b).isEmpty = false := by
+        intro l
+        induction l with
+        | nil => intro b hb; exact hb
+        | cons q l ih =>
+          intro b hb
+          apply ih
+          cases q <;> simp [Builder.push, Builder.isEmpty] at hb ⊢ <;> intro a b' <;> simp_all
+      have h1 : (Builder.push ⟨[], [], []⟩ p).isEmpty = false := by
+        cases p <;> simp [Builder.push, Builder.isEmpty]
+      have := hmono qs _ h1
+      rw [List.foldl_cons] at hfold
+      rw [hfold] at this
+      exact this
+  simp [hne]
 
 
 theorem parseSimple_tail (c : SimpleCommand) (tail : List Char) (ht : TailOk tail)
